@@ -435,7 +435,7 @@ def run_all(rep, prop, tier):
 # decorated chains and rings: every colouring of P_n / C_n over a small element alphabet
 # (refinement needs many rounds and information has to travel along the chain)
 # ----------------------------------------------------------------------------------------------
-CHAIN_COLOURS = [("C", None, None), ("H", None, None), ("N", None, None), ("O", None, None)]
+CHAIN_COLOURS = [("C", None, None), ("H", None, None), ("N", None, None), ("O", None, None), ("C", 13, None), ("C", 14, 2)]
 
 
 def chain_jobs(tier):
@@ -528,13 +528,32 @@ def run_chain_chunk(job):
     return res
 
 
+def long_labelled_chain_jobs(tier):
+    """Chains of 12 and 17 atoms (quick) with every pair of labelled positions: multi-digit canonical indices, two labelled
+    atoms of one element far apart; three numberings each (run_chain_chunk)."""
+    from itertools import combinations as comb
+
+    jobs = []
+    for n in ((12, 17) if tier == "quick" else (10, 12, 17, 18, 25)):
+        reps = []
+        for i, j in comb(range(n), 2):
+            cs = [0] * n
+            cs[i] = 4
+            cs[j] = 5 if (i + j) % 2 else 4
+            reps.append(tuple(cs))
+        for c0 in range(0, len(reps), 40):
+            jobs.append(("path", n, reps[c0:c0 + 40]))
+    return jobs
+
+
 def chains_engine(rep, prop, tier):
     from .common import pmap
 
     props = frozenset([prop])
     seen = {}
     nchains = 0
-    for job, res in pmap(run_chain_chunk, [(props, j) for j in chain_jobs(tier)]):
+    alljobs = chain_jobs(tier) + (long_labelled_chain_jobs(tier) if prop in ("C01", "C04", "C13") else [])
+    for job, res in pmap(run_chain_chunk, [(props, j) for j in alljobs]):
         nchains += len(job[1][2])
         rep.add(states=res["states"], transitions=res["transitions"], traces_validated_against_impl=res["exec"],
                 distinct_nontrivial=res["nontrivial"], chain_executions=res["exec"])
